@@ -13,7 +13,7 @@ func init() {
 		Technique: "response-addressing provenance + guard dominance of every Send + consumed-peek audit of every discarded RetrieveIncoming + no-loss-after-retrieve path rule",
 		Explanation: "Decides, for the memory-protocol agents (mem/ outside mem/vm): (1) every response under construction takes RspTo and Dst from the ID and source of one request record (the request itself or the record stored when it was admitted), with DataReadyRsp built from read records and WriteDoneRsp from write records; " +
 			"(2) every Port.Send in mem/ and noc/ is dominated by a successful CanSend on the same port (in the function, in every caller, or through a guard wrapper); (3) every RetrieveIncoming whose result is discarded is a consumed peek — the same port was peeked in that function, or the peeked message was passed in as a parameter; " +
-			"(4) on no path is a message retrieved from a port and then abandoned because a later CanSend test fails (back-pressure must be tested before the message is removed). (tag-install-valid) a function that installs a tag into a directory block does not mark that block invalid; (storage-write-mask) every function that commits a write request's payload to backing storage consults the request's DirtyMask.",
+			"(4) on no path is a message retrieved from a port and then abandoned because a later CanSend test fails (back-pressure must be tested before the message is removed). (tag-install-valid) a function that installs a tag into a directory block does not mark that block invalid; (storage-write-mask) every function that commits a write request's payload to backing storage consults the request's DirtyMask. (pipeline-depth) every configuration field that sizes a queueing.Pipeline is compared with 0 somewhere in its package (bypass or rejection).",
 		NotDecided:  "every clause about data bytes, dirty masks, coalescing, eviction gating, and 'exactly one response' beyond addressing: these depend on cache contents and transaction flows.",
 		Assumptions: []string{"request records name their ID/source fields with an ID/Src suffix and a common stem (checked on every site: an unrecognised naming is reported, not skipped)"},
 	}, runC16)
@@ -25,14 +25,14 @@ func init() {
 	}, runC21)
 	register("C23", PropertyMeta{
 		Technique:   "decision tables of request intake and completion + response provenance + explicit-placement rule for staged chunks",
-		Explanation: "Decides on mem/datamover: a new request is retrieved only when no transaction is active and is recorded with its ID and source; the acknowledgement is sent exactly once, only when every issued read and write has been acknowledged, addressed with the active transaction's request ID and source, and the transaction is cleared on that path; a staged source chunk is stored at the slot computed from its address (so arrival order cannot permute data) and holds a private copy of the bytes. (idempotent-stall) nothing that advances the cursors or releases staged bytes runs before a destination-busy stall test. (head-consumed) when the response at the head of a memory-side port is not of the kind a step handles, that step can still take it off the port (it is an orphan when source and destination are different ports).",
+		Explanation: "Decides on mem/datamover: a new request is retrieved only when no transaction is active and is recorded with its ID and source; the acknowledgement is sent exactly once, only when every issued read and write has been acknowledged, addressed with the active transaction's request ID and source, and the transaction is cleared on that path; a staged source chunk is stored at the slot computed from its address (so arrival order cannot permute data) and holds a private copy of the bytes. (idempotent-stall) nothing that advances the cursors or releases staged bytes runs before a destination-busy stall test. (head-consumed) when the response at the head of a memory-side port is not of the kind a step handles, that step can still take it off the port (it is an orphan when source and destination are different ports). (size-granularity) the function that admits a move checks its byte count against the chunk granularity like its addresses.",
 		NotDecided:  "everything else about bytes and granularity chunking (value-level).",
 		Assumptions: []string{},
 	}, runC23)
 	register("C25", PropertyMeta{
 		Technique: "response-addressing provenance over the translation agents + stale-response guard audit + no-loss-after-retrieve path rule + the pipeline region coverage of C15",
 		Explanation: "Decides, for mem/vm (address translator, TLB, MMU cache, MMU, GMMU): (1) the RspTo and Dst of every TranslationRsp (and forwarded memory response) derive from the ID and source of one request record; (2) a bottom response is discarded as stale only on a path that compared its RspTo with an outstanding request; " +
-			"(3) no translation response is retrieved from a port and then dropped because a later CanSend fails; (4) the TLB's pipeline configuration cannot strand a request (C15's item-state coverage, re-run here). (key-injective) lruset.KeyString separates its fields by a constant or gives every field after the first a fixed zero-padded width.",
+			"(3) no translation response is retrieved from a port and then dropped because a later CanSend fails; (4) the TLB's pipeline configuration cannot strand a request (C15's item-state coverage, re-run here). (key-injective) lruset.KeyString separates its fields by a constant or gives every field after the first a fixed zero-padded width. (invalidate-inflight) the TLB's Invalidate handler looks at the outstanding misses (reported as a known finding today).",
 		NotDecided:  "physical address arithmetic, page offset preservation, invalidation semantics against page-table updates.",
 		Assumptions: []string{},
 	}, runC25)
@@ -275,6 +275,7 @@ func maskAwareRule(c *Ctx, rule string) {
 }
 
 func runC16(c *Ctx) {
+	pipelineDepthRule(c, "pipeline-depth", func(pp string) bool { return strings.HasPrefix(pp, ModPath+"/mem/") }, 4)
 	storageWriteMaskRule(c, "storage-write-mask", 3)
 	tagInstallValidRule(c, "tag-install-valid", 5)
 	maskAwareRule(c, "mask-aware-full-line")
@@ -449,6 +450,7 @@ func runC21(c *Ctx) {
 }
 
 func runC23(c *Ctx) {
+	sizeGranularityRule(c, "size-granularity")
 	headConsumedDatamoverRule(c, "head-consumed")
 	// a stalled write (destination port busy) is retried next tick: nothing that
 	// advances the cursors or releases staged bytes may run before the stall test
@@ -661,6 +663,7 @@ func staleGuardRule(c *Ctx, rule string) {
 }
 
 func runC25(c *Ctx) {
+	invalidateInflightRule(c, "invalidate-inflight", []string{"mem/vm/tlb"})
 	keyInjectiveRule(c, "key-injective")
 	responseAddressingRule(c, "response-addressing", memVM, 12)
 	sendGuardRule(c, "send-guard", memVM, 15)
@@ -1065,4 +1068,73 @@ func headConsumedDatamoverRule(c *Ctx, rule string) {
 		}
 	}
 	c.Check(n >= 2, rule, "instances", 0, itoa(n)+" response-kind assertions inspected", "no response-kind assertion found in the data mover")
+}
+
+// sizeGranularityRule: the data mover moves whole granularity-sized chunks. The
+// function that admits a move checks that both addresses are aligned
+// (addressMustBeAligned); the byte count needs the same check, or the last chunk
+// written overruns the requested destination range (size not a multiple of the
+// destination granularity, smaller chunk) or is never assembled and the move is
+// never acknowledged (larger chunk).
+func sizeGranularityRule(c *Ctx, rule string) {
+	p := c.P
+	n := 0
+	for _, fn := range p.SrcFuncs(func(pp string) bool { return pp == pkgPath("mem/datamover") }) {
+		// admission = the function that validates the two addresses
+		aligned := 0
+		for _, b := range fn.Blocks {
+			for _, in := range b.Instrs {
+				if call, ok := in.(ssa.CallInstruction); ok {
+					if sc := call.Common().StaticCallee(); sc != nil && sc.Name() == "addressMustBeAligned" {
+						aligned++
+					}
+				}
+			}
+		}
+		if aligned < 2 {
+			continue
+		}
+		n++
+		// a remainder test over the request's ByteSize, here or in a direct callee
+		sized := false
+		check := func(g *ssa.Function, arg func(ssa.Value) bool) {
+			for _, b := range g.Blocks {
+				for _, in := range b.Instrs {
+					if bo, ok := in.(*ssa.BinOp); ok && bo.Op == token.REM && arg(bo.X) {
+						sized = true
+					}
+				}
+			}
+		}
+		fromSize := func(v ssa.Value) bool {
+			for y := range DataSlice(fn, v) {
+				if f := FieldOf(y); f != nil && f.Name() == "ByteSize" {
+					return true
+				}
+			}
+			return false
+		}
+		check(fn, fromSize)
+		for _, b := range fn.Blocks {
+			for _, in := range b.Instrs {
+				call, ok := in.(ssa.CallInstruction)
+				if !ok {
+					continue
+				}
+				sc := call.Common().StaticCallee()
+				if sc == nil || sc.Pkg != fn.Pkg || len(sc.Blocks) == 0 {
+					continue
+				}
+				for i, a := range call.Common().Args {
+					if fromSize(a) && i < len(sc.Params) {
+						pv := sc.Params[i]
+						check(sc, func(v ssa.Value) bool { return stripConv(v) == ssa.Value(pv) })
+					}
+				}
+			}
+		}
+		c.Check(sized, rule, SSAFuncKey(fn), fn.Pos(), "the byte count is checked against the granularity like the addresses",
+			"the move is admitted after checking that both addresses are aligned to the chunk granularity, but its byte count is not checked: a size that is not a multiple of the destination granularity makes the last chunk overwrite bytes beyond the requested range (or never be assembled, so the move is never acknowledged)")
+	}
+	c.Check(n >= 1, rule, "instances", 0, itoa(n)+" admission functions inspected", "the admission function (two addressMustBeAligned calls) was not found")
 }
